@@ -18,6 +18,10 @@ def run(ctx):
     conc.run_component(ctx, mb, ["gp_1r1u", "gp_nest", "gp_2u_small"] + ([] if q else ["gp_2u"]), nseeds=n, nsim=sim)
     conc.run_component(ctx, ms, ["gp_1r1u"] + ([] if q else ["gp_2u_small", "gp_nest", "gp_2u"]), nseeds=n, nsim=sim)
     conc.run_component(ctx, mn, ["gp_1r1u"] + ([] if q else ["gp_nest", "gp_2u_small"]), nseeds=n, nsim=sim)
+    if q:
+        # nested sections of the memb flavor (its own read-side header): executions validated against the model in the quick tier,
+        # exhaustive exploration of the scenario in the thorough tier (seeded change C01-5: nested lock re-samples the phase)
+        conc.run_component(ctx, ms, ["gp_nest"], nseeds=n, nsim=0, mc=False)
     ctx.extra.setdefault("flavors_covered", []).extend(["mb", "memb+sys_membarrier", "memb without sys_membarrier"])
     if len(ctx.violations) < conc.MAXV:
         qsbr_parts.run_c01(ctx); ctx.extra["flavors_covered"].append("qsbr")
